@@ -153,6 +153,17 @@ def main():
         shutil.copy(demo_diff, dest + "/demo.diff")
     if demo_script:
         shutil.copy(demo_script, dest + "/demo." + demo_script.rsplit(".", 1)[1])
+    earlier = []
+    if os.path.exists(dest + "/meta.json"):
+        try:
+            om = json.load(open(dest + "/meta.json"))
+            earlier = om.get("earlier_check_runs", [])
+            oc = om.get("confirmation", {})
+            if oc.get("checks_on_patched_tree"):
+                earlier.append({"verif_commit": oc.get("verif_commit"), "checks_on_patched_tree": oc["checks_on_patched_tree"]})
+        except Exception:
+            pass
+    log["verif_commit"] = subprocess.run("git -C /verif rev-parse --short HEAD", shell=True, capture_output=True, text=True).stdout.strip()
     meta = {
         "breaks_property": prop,
         "summary": meta_in.get("summary"),
@@ -161,6 +172,7 @@ def main():
         "files_touched": meta_in.get("files_touched"),
         "origin": "independent sub-agent given only the property text and a scratch worktree",
         "confirmation": log,
+        "earlier_check_runs": earlier,
     }
     json.dump(meta, open(dest + "/meta.json", "w"), indent=1)
     print(json.dumps({k: log[k] for k in log if k != "ran"}, indent=1)[:3000])
